@@ -422,7 +422,7 @@ def run(ctx):
     _t(ctx, "trace validation", t0)
     t0 = time.time()
     # 5. binding self-test
-    ctx.extra["binding_selftest"] = selftest(small, docs, small_failed)
+    ctx.selftest(selftest, small, docs, small_failed)
     ctx.extra["alpha_selftest"] = alpha_selftest()
     ctx.extra["stamp_lattice_points"] = nsec
     _t(ctx, "self-tests", t0)
